@@ -24,6 +24,8 @@ OpsWeakQ == {"New", "CloneRoot", "DropRoot", "AdoptStore", "TakeUnadopt", "DropS
              "Downgrade", "Upgrade", "UpgradeStored", "WeakDrop", "StoreWeak"}
 CapsS == [strong |-> 2, stored |-> 1, rec |-> 1, weak |-> 1, storedW |-> 1, over |-> TRUE, elide |-> TRUE, scripted |-> 1]
 CapsE == [strong |-> 2, stored |-> 1, rec |-> 1, weak |-> 1, storedW |-> 1, over |-> FALSE, elide |-> TRUE, scripted |-> 1]
+CapsCE == [strong |-> 2, stored |-> 1, rec |-> 1, weak |-> 1, storedW |-> 1, over |-> FALSE, elide |-> TRUE, scripted |-> 1]
+CapsCE3 == [strong |-> 3, stored |-> 1, rec |-> 1, weak |-> 1, storedW |-> 1, over |-> FALSE, elide |-> TRUE, scripted |-> 1]
 CapsE3 == [strong |-> 3, stored |-> 2, rec |-> 2, weak |-> 1, storedW |-> 1, over |-> FALSE, elide |-> TRUE, scripted |-> 1]
 CapsS3 == [strong |-> 3, stored |-> 2, rec |-> 2, weak |-> 1, storedW |-> 1, over |-> TRUE, elide |-> TRUE, scripted |-> 1]
 Caps2 == [strong |-> 3, stored |-> 2, rec |-> 2, weak |-> 1, storedW |-> 1, over |-> FALSE, elide |-> FALSE, scripted |-> 1]
@@ -47,7 +49,7 @@ MenuC10 == {NoScript} \cup {Sc(o, i, 0) : o \in {"CloneRoot", "DropRoot", "Downg
 MenuC10Q == {NoScript} \cup {Sc(o, i, 0) : o \in {"CloneRoot", "DropRoot", "UpgradeWeak"}, i \in Obj}
                        \cup {Sc("Adopt", i, j) : i \in Obj, j \in Obj}
 MenuPanic == {NoScript, Sc("Panic", 0, 0)}
-OpsConsume == {"New", "CloneRoot", "DropRoot", "AdoptStore", "TakeUnadopt", "Store", "Downgrade", "WeakDrop", "Upgrade",
+OpsConsume == {"New", "CloneRoot", "DropRoot", "AdoptStore", "TakeUnadopt", "Store", "Take", "DropStored", "Downgrade", "WeakDrop", "Upgrade",
                "TryUnwrap", "GetMut", "MakeMut", "MakeMutS", "IntoRaw", "FromRaw", "IncStrong", "DecStrong", "DropDetached"}
 VPurge == [bust |-> "owned", loop |-> "ignored", consume |-> "purge"]
 OpsOrder == {"New", "CloneRoot", "DropRoot", "AdoptStore", "TakeUnadopt", "Downgrade", "WeakDrop", "Upgrade",
